@@ -5,3 +5,4 @@ import TIV.C02.Props
 import TIV.C03.Props
 import TIV.C12.Props
 import TIV.C13.Props
+import TIV.C04.Props
